@@ -201,8 +201,8 @@ kf("C11", "C11-unchecked-const-expression-contexts", "the expression in an array
     "C11|G:undeclared-identifier(ident-const:*|accepted|local-array-size/*", "C11|G:unknown-function(unknown-fn-const:*|accepted|local-array-size/*", "C11|G:unknown-member(member-ctor:*|accepted|local-array-size/*", "C11|G:swizzle-*(swizzle-const:*|accepted|local-array-size/*",
     "C11|G:undeclared-identifier(ident-const:*|accepted|const-assert-stmt/*", "C11|G:unknown-function(unknown-fn-const:*|accepted|const-assert-stmt/*", "C11|G:unknown-member(member-ctor:*|accepted|const-assert-stmt/*", "C11|G:swizzle-*(swizzle-const:*|accepted|const-assert-stmt/*",
     "C11|undeclared-identifier|accepted|rich/all-declaration-and-statement-kinds"])
-kf("C11", "C11-const-assert-forward-const", "a function-scope `const_assert KC == 1;` that is false is accepted when the module constant it mentions (`const KC: i32 = 4;`) is declared after the function: an assertion that cannot be evaluated at that point passes silently",
-   ["C11|G:const-assert-false(const-assert-const:module-const)|accepted|stmt/*/decls-after"])
+kf("C11", "C11-const-assert-forward-const", "a false `const_assert KC == 1;` (function scope or module scope) is accepted when the module constant it mentions (`const KC: i32 = 4;`) is declared after the assertion / after the function containing it: an assertion that cannot be evaluated at that point passes silently",
+   ["C11|G:const-assert-false(const-assert-const:module-const)|accepted|stmt/*/decls-after", "C11|M:const-assert-false(const-assert-const:module-const)|accepted|module-const-assert/after-users"])
 kf("C11", "C11-function-const-scope-leak", "a function-scope `const k = 7;` declared in a nested block (if/else arm, loop body, switch clause, compound statement) stays visible after the block ends: `{ const k = 7; } acc = k;` and `if c { const k = 7; } else { acc = k; }` compile (let/var are scoped correctly)",
    ["C11|S:undeclared-identifier(out-of-scope:const:value)|accepted|*"])
 kf("C11", "C11-builtin-result-discarded", "a call statement that discards the result of a builtin function (`min(1, 2);`; every value-returning builtin is @must_use in WGSL) is accepted; only user functions marked @must_use are diagnosed",
